@@ -38,6 +38,7 @@ class Executor:
         self.obj_ids = {}
         self.keep = []
         self.registries = {}
+        self.ctx_pool = {}     # caller-owned context dicts, reused by every chain construction of this process
         self._seen = {}
         self.writer = {}
         self.last_run = {}
@@ -81,7 +82,8 @@ class Executor:
             with hyp.quiet_output():
                 if kind == 'chain':
                     case = self.hist['variants'][op['variant'] % len(self.hist['variants'])]
-                    cfg = build.make_config(case, self.data, self.cfgdir(op['variant'] % len(self.hist['variants'])))
+                    cfg = build.make_config(case, self.data, self.cfgdir(op['variant'] % len(self.hist['variants'])),
+                                            ctx_pool=self.ctx_pool)
                     if op.get('registry') is not None:
                         # a caller-owned registry shared by several chains (Chain(config, shared_tasks=registry))
                         reg = self.registries.setdefault(op['registry'], {})
@@ -94,7 +96,7 @@ class Executor:
                     configs, names = [], []
                     for j, vi in enumerate(op['variants']):
                         vi = vi % len(self.hist['variants'])
-                        cfg = build.make_config(self.hist['variants'][vi], self.data, self.cfgdir(vi))
+                        cfg = build.make_config(self.hist['variants'][vi], self.data, self.cfgdir(vi), ctx_pool=self.ctx_pool)
                         cfg._name = f'mc{j}_{cfg._name}'  # distinct names (documented requirement)
                         configs.append(cfg)
                         names.append(cfg.name)
@@ -106,6 +108,7 @@ class Executor:
                     self.obj_ids.clear()
                     self.keep.clear()
                     self.registries.clear()
+                    self.ctx_pool.clear()
                     import gc
                     gc.collect()
                 elif kind == 'fault':
